@@ -15,6 +15,7 @@ import (
 	"runtime"
 	"sort"
 	"strconv"
+	"sync"
 	"testing"
 	"time"
 
@@ -82,6 +83,7 @@ type rawState struct {
 }
 
 type runner struct {
+	mu   sync.Mutex // events of an abandoned case may still arrive from its goroutines
 	base time.Time
 	out  *bufio.Writer
 	wd   time.Duration
@@ -157,6 +159,8 @@ func (r *runner) emit(m map[string]interface{}) {
 	if err != nil {
 		panic(err)
 	}
+	r.mu.Lock()
+	defer r.mu.Unlock()
 	r.out.Write(b)
 	r.out.WriteByte('\n')
 }
@@ -273,6 +277,15 @@ func (r *runner) runCase(sc *script) bool {
 			cl := clients[c]
 			if cl.cancel != nil {
 				cl.cancel()
+			}
+		}
+		for _, c := range order {
+			cl := clients[c]
+			if cl.cancel != nil {
+				select {
+				case <-cl.done:
+				case <-time.After(r.wd):
+				}
 			}
 		}
 	}
